@@ -141,8 +141,6 @@ def r13_4(ctx):
     """LazyList: mutations under the position lock and after validate(); retire outside the lock, on success"""
     n = 0
     raii = raii_lock_classes(ctx.db)
-    if not any("LazyList" in c for c in raii):
-        ctx.broken("no RAII position-lock class found in LazyList")
     for F in ctx.db.funcs.values():
         if not re.match(r"cds::intrusive::LazyList::", F.q):
             continue
